@@ -386,7 +386,7 @@ pub fn check_c15(tier: &str, seed: u64) -> i32 {
         }
     };
     for f in &m.failures {
-        let dir = Path::new(VERIF).join("replays");
+        let dir = out_root().join("replays");
         std::fs::create_dir_all(&dir).ok();
         let p = dir.join(format!("C15-{:016x}.json", case_hash(&f.case.to_string())));
         std::fs::write(&p, serde_json::to_string_pretty(&f.case).unwrap()).ok();
